@@ -50,6 +50,32 @@ def run(repo, rep, tier):
     # locate the failure at an unrelated expression
     from .c12 import transfers
     transfers(repo, rep, rule="R13.5")
+    # OnError is the outermost wrapper of what visit_element *returns* --
+    # but the element's node is also handed out through two side doors: the
+    # fill-slot collector and the macro table.  What is registered there
+    # must carry the on-error wrapper too, or a failing fill-slot /
+    # define-macro element with tal:on-error is not replaced by its fallback
+    ve = repo.func("chameleon.zpt.program.MacroProgram.visit_element")
+    wraps = [n.lineno for n in ast.walk(ve.node) if isinstance(n, ast.Call)
+             and src(n.func) == "wrap" and any(
+                 src(a) == "ON_ERROR" for a in n.args)]
+    regs = []
+    for n in ast.walk(ve.node):
+        if isinstance(n, ast.Call) and src(n.func) == "nodes.FillSlot":
+            regs.append(("fill-slot", n))
+        elif isinstance(n, ast.Assign) and src(n.targets[0]).startswith(
+                "self._macros["):
+            regs.append(("define-macro", n))
+    if len(regs) < 2 or not wraps:
+        raise AnalysisError("visit_element: registration sites / ON_ERROR "
+                            "wrap not found")
+    for what, n in regs:
+        covered = any(w < n.lineno for w in wraps) or "ON_ERROR" in src(n)
+        rep.check(covered, "R13.3", ve.qualname, "the node registered for "
+                  "%s carries the element's on-error wrapper" % what,
+                  construct="side-door:" + what, where=L.where(ve, n.lineno),
+                  detail="%s is built from the node before ON_ERROR is "
+                         "applied (line %s)" % (src(n)[:60], wraps))
     from .c01 import content_node_total
     okc, detail = content_node_total(repo)
     rep.check(okc, "R13.3", "chameleon.zpt.program.MacroProgram."
